@@ -164,6 +164,7 @@ func runConcurrent(m *mon.M, c *Case, x *exec, rt *client.Runtime) {
 		m.Class("conc:first-calls-serial")
 	}
 
+	reruns := 0
 	for i := range c.Calls {
 		call := &c.Calls[i]
 		for k := 0; k < rounds(call); k++ {
@@ -173,7 +174,20 @@ func runConcurrent(m *mon.M, c *Case, x *exec, rt *client.Runtime) {
 			if len(fs) == 0 {
 				continue
 			}
+			// the failing call alone on a fresh Runtime is the smaller witness whenever it fails there too
+			var alone []finding
+			if reruns < 4 {
+				reruns++
+				alone = runAlone(c, call)
+			}
 			for _, f := range fs {
+				if hasSig(alone, f.sig) {
+					one := *call
+					one.Rounds = 0
+					m.Violate(f.sig, fmt.Sprintf("(first seen in a concurrent run, N=%d; reproduced by this call alone) %s", n, f.text),
+						&Case{Registry: c.Registry, DefaultMT: c.DefaultMT, RtCtx: c.RtCtx, TCP: c.TCP, Calls: []Call{one}})
+					continue
+				}
 				m.Violate(f.sig, fmt.Sprintf("concurrent run (N=%d, GOMAXPROCS=%d), goroutine %d round %d: %s", n, procs, i, k, f.text), c)
 			}
 		}
@@ -190,4 +204,26 @@ func bucket(n int) int {
 		}
 	}
 	return 128
+}
+
+func hasSig(fs []finding, sig string) bool {
+	for _, f := range fs {
+		if f.sig == sig {
+			return true
+		}
+	}
+	return false
+}
+
+// runAlone makes one call sequentially on a fresh Runtime configured like the case's.
+func runAlone(c *Case, call *Call) []finding {
+	one := *call
+	one.Rounds = 0
+	min := &Case{Registry: c.Registry, DefaultMT: c.DefaultMT, RtCtx: c.RtCtx, TCP: c.TCP, Calls: []Call{one}}
+	x := prepare(min)
+	defer x.release()
+	rt := x.newRuntime()
+	s := x.slots[tokenOf(x.nonce, 0, 0)]
+	x.submit(rt, &min.Calls[0], s)
+	return judgeCall(min, &min.Calls[0], s)
 }
